@@ -594,3 +594,43 @@ Definition num_follow_ok (rest : list Z) : bool :=
   | [] => true
   | c :: _ => negb (is_digit c) && negb (c =? 46) && negb (is_ident_char c)
   end.
+
+(* ---------------------------------------------------------------- placeholders that stand as tokens of their own *)
+(* bytes after which a placeholder may stand: whitespace, `(` and `,` *)
+Definition is_sep_before (b : Z) : bool := is_ws b || (b =? 40) || (b =? 44).
+(* bytes that may follow a placeholder: whitespace, `)`, `,` and `;` *)
+Definition is_sep_after (b : Z) : bool := is_ws b || (b =? 41) || (b =? 44) || (b =? 59).
+
+(* a well-formed NULL / boolean / integer / text / blob value *)
+Definition simple_val (v : val) : bool := val_ok v && negb (is_float v).
+
+(* every parameter item is preceded by a one-byte separator item (or starts the statement: prev_ok)
+   and is followed by a non-parameter item that begins with a separator (or ends the statement) *)
+Fixpoint isolated (prev_ok : bool) (items : list item) : bool :=
+  match items with
+  | [] => true
+  | (k, txt) :: t =>
+      if is_param k then
+        prev_ok
+        && match t with
+           | [] => true
+           | (k2, c :: _) :: _ => negb (is_param k2) && is_sep_after c
+           | (_, []) :: _ => false
+           end
+        && isolated false t
+      else isolated (match txt with [c] => is_sep_before c | _ => false end) t
+  end.
+
+(* the tokens of a literal *)
+Definition lit_items (v : val) : list item :=
+  match v with
+  | VNull => [(KId, t_null)]
+  | VBool b => [(KId, if b then t_true else t_false)]
+  | VInt z => if z <? 0 then [(KMinus, [45]); (KInt, show_nat (- z))] else [(KInt, show_nat z)]
+  | VText s => [(KStr, render (VText s))]
+  | VBlob b => [(KHex, render (VBlob b))]
+  | VFloat _ _ => []
+  end.
+
+(* the scanner cannot tell X from Y behind the byte c: c is a separator, or X and Y begin alike *)
+Definition look2 (c : Z) (X Y : list Z) : Prop := is_sep_before c = true \/ hd_error X = hd_error Y.
